@@ -25,6 +25,7 @@ from geneticengine.random.sources import RandomSource, NativeRandomSource  # noq
 from geneticengine.grammar.metahandlers.ints import IntRange, IntList  # noqa: E402,F401
 from geneticengine.grammar.metahandlers.lists import ListSizeBetween  # noqa: E402,F401
 from geneticengine.grammar.metahandlers.vars import VarRange  # noqa: E402,F401
+from geneticengine.grammar.decorators import abstract  # noqa: E402
 
 
 # ------------------------------------------------------------------------------------------------
@@ -268,6 +269,7 @@ def make_family():
     class R3(ABC):
         pass
 
+    @abstract
     class S3(R3):
         pass
 
